@@ -417,7 +417,12 @@ class Verifier(Stmts):
             nenv = dict(env)        # lets are entry values: evaluated before the havoc above
             nenv['result'] = result
             feasible = True
-            if not st.spec or con.spec_facts:
+            if st.spec and con.spec_facts:
+                # inside a specification nothing checked the callee's precondition: its facts hold under it
+                pre_ok = self.b(self._and([self.spec_bool(t, normal, nenv) for t in con.requires_]))
+                for text in con.ensures_ + con.on_any_:
+                    normal.assume(z3.Implies(pre_ok, self.b(self.spec_bool(text, normal, nenv))))
+            elif not st.spec:
                 # inside a specification a summarised call is just the summary term: the callee's post-conditions are
                 # brought in explicitly where a lemma needs them (use_contract), not silently at every mention
                 for text in con.ensures_ + con.on_any_:
